@@ -1,5 +1,91 @@
-import Pithos.Model.S3
+/-
+C02 — versioning: every live version stays addressable and the latest is the newest.
+
+Theorems about the storage model `Pithos.S3` (tied to /repo by the differential harness `s3h`).
+-/
+import Pithos.Lemmas.S3NewestStep
+import Pithos.Props.C01
+
 namespace Pithos.C02
 open Pithos.S3
-theorem placeholder_run_nil (q : Quirks) (s : State) : (run q s []).2 = [] := rfl
+
+/-- **reachable_one_latest.** After any finite history, under any quirk setting, every key of every
+bucket has at most one row flagged `latest`: "the current version" is well defined. -/
+theorem reachable_one_latest (q : Quirks) (ops : List Op) :
+    ∀ bk ∈ (run q {} ops).1.buckets, ∀ k, lc bk.rows k ≤ 1 :=
+  fun bk hbk k => (C01.reachable_inv q ops bk hbk).one k
+
+theorem reachable_winv (q : Quirks) (hq : q.promoteByCreated = false) (ops : List Op) :
+    Inv (run q {} ops).1 ∧ WInv (run q {} ops).1 := by
+  have gen : ∀ (s : State), Inv s → WInv s → Inv (run q s ops).1 ∧ WInv (run q s ops).1 := by
+    induction ops with
+    | nil => intro s h w; exact ⟨h, w⟩
+    | cons op ops ih =>
+      intro s h w
+      have := ih (step q s op).1 (step_inv q s op h) (step_winv q hq s op h w)
+      simpa [run] using this
+  exact gen {} (by intro bk hbk; cases hbk) (by intro bk hbk; cases hbk)
+
+/-- **latest_is_newest.** With the reference promotion rule (`promoteByCreated = false`; every other
+switch arbitrary) the current version of a key is, after ANY history, the most recently written
+version of that key that still exists: its write sequence number is the greatest among the key's
+rows (versions and delete markers). -/
+theorem latest_is_newest (q : Quirks) (hq : q.promoteByCreated = false) (ops : List Op) :
+    ∀ bk ∈ (run q {} ops).1.buckets, ∀ r ∈ bk.rows, r.latest = true →
+      ∀ r' ∈ bk.rows, r'.key = r.key → r'.wrote ≤ r.wrote :=
+  fun bk hbk => ((reachable_winv q hq ops).2 bk hbk).max
+
+/-- The version GET returns is that newest one: whatever `get b k` (no version id) answers in a
+reachable state is the view of a row whose write sequence number dominates its key's rows. -/
+theorem get_returns_newest (q : Quirks) (hq : q.promoteByCreated = false) (ops : List Op) (b k : String) (v : ObjView)
+    (hget : (step q (run q {} ops).1 (.get b k none)).2 = .obj v) :
+    ∃ bk r, findBucket (run q {} ops).1 b = some bk ∧ r ∈ bk.rows ∧ v = viewOf r ∧ r.key = k ∧
+      ∀ r' ∈ bk.rows, r'.key = k → r'.wrote ≤ r.wrote := by
+  have hfb : findBucket { (run q {} ops).1 with clock := (run q {} ops).1.clock + 1 } b = findBucket (run q {} ops).1 b := rfl
+  simp only [step, stepT, hfb] at hget
+  cases hf : findBucket (run q {} ops).1 b with
+  | none => simp [hf] at hget
+  | some bk =>
+    simp only [hf, resolve] at hget
+    cases hl : latestRow bk k with
+    | none => simp [hl] at hget
+    | some r =>
+      simp only [hl] at hget
+      by_cases hd : r.dm = true
+      · simp [hd] at hget
+      · simp [hd] at hget
+        obtain ⟨hr, hk, hlat⟩ := latestRow_some hl
+        refine ⟨bk, r, rfl, hr, hget.symm, hk, ?_⟩
+        intro r' hr' hk'
+        exact latest_is_newest q hq ops bk (findBucket_mem hf) r hr hlat r' hr' (by rw [hk', hk])
+
+/-- **Negation witness for the code as it is** (`Quirks.code`, promotion by `created_at`): the null
+version is written, a version v0 is written, the null version is overwritten in place (keeping its
+old `created_at`), v1 is written and deleted again — the code makes v0 current although the null
+version was written after it. The reference rule answers with the null version. This history is
+directed case 1 of the harness (known finding C02.quirk.promoteByCreated). -/
+def witnessOps : List Op :=
+  [.mkb "b", .put "b" "k" [0] {} false .none, .setVer "b" .enabled, .put "b" "k" [1] {} false .none,
+   .setVer "b" .suspended, .put "b" "k" [2] {} false .none, .setVer "b" .enabled, .put "b" "k" [3] {} false .none,
+   .del "b" "k" (some (some 1)) .none]
+
+theorem code_promotes_older_version :
+    (match (step Quirks.code (run Quirks.code {} witnessOps).1 (.get "b" "k" none)).2 with
+     | .obj v => v.body | _ => []) = [1] ∧
+    (match (step Quirks.none (run Quirks.none {} witnessOps).1 (.get "b" "k" none)).2 with
+     | .obj v => v.body | _ => []) = [2] := by
+  decide
+
+/-- …so `latest_is_newest` is false for `Quirks.code`. -/
+theorem latest_is_newest_fails_for_code :
+    ¬ (∀ bk ∈ (run Quirks.code {} witnessOps).1.buckets, ∀ r ∈ bk.rows, r.latest = true →
+      ∀ r' ∈ bk.rows, r'.key = r.key → r'.wrote ≤ r.wrote) := by
+  decide
+
+/-- Non-vacuity of `get_returns_newest`: the witness history under the reference rule does reach a
+state in which GET answers an object. -/
+example : (match (step Quirks.none (run Quirks.none {} witnessOps).1 (.get "b" "k" none)).2 with
+    | .obj _ => true | _ => false) = true := by
+  decide
+
 end Pithos.C02
